@@ -408,3 +408,115 @@ def generate(fmt, rng, tag, ctx=None, **kw):
             ctx.count('generator_rejects_' + fmt)
             ctx.note('last_generator_reject_' + fmt, why[:300])
     raise RuntimeError('could not generate a valid %s document: %s' % (fmt, why))
+
+
+# ------------------------------------------------------------------------------- styled documents (C07, C10)
+
+def gen_dfxp_styled(rng, tag):
+    """A TTML document with a styling section (adversarial attribute values, a reference chain), regions with
+    origin / extent / padding / alignment, region= on div / p / span and inline tts: attributes."""
+    from xml.sax.saxutils import quoteattr
+    fams = ['Arial', 'A & B', '"Times New Roman", serif', "it's", '<mono>', 'x > y']
+    colors = ['white', '#ff0000', 'rgb(1,2,3)', 'a&b']
+    ids = rng.sample(['s1', 's2', 'p', 'default', 'hl', 'bottom', 'r0', 'a.b', 'st-3'], 3)
+    doc = ('<?xml version="1.0" encoding="utf-8"?>\n<tt xml:lang="en" xmlns="http://www.w3.org/ns/ttml" '
+           'xmlns:tts="http://www.w3.org/ns/ttml#styling">\n<head>\n <styling>\n')
+    for k, sid in enumerate(ids):
+        attrs = ' tts:fontFamily=%s tts:color=%s' % (quoteattr(rng.choice(fams)), quoteattr(rng.choice(colors)))
+        if rng.random() < 0.4:
+            attrs += ' tts:fontStyle="italic"'
+        if rng.random() < 0.3:
+            attrs += ' tts:textAlign="%s"' % rng.choice(['left', 'center', 'right', 'start', 'end'])
+        if k and rng.random() < 0.4:
+            attrs += ' style="%s"' % ids[k - 1]
+        doc += '  <style xml:id="%s"%s/>\n' % (sid, attrs)
+    doc += ' </styling>\n <layout>\n'
+    regs = ['rA', 'rB', 'rC'][:rng.randrange(1, 4)]
+    for r in regs:
+        attrs = ''
+        if rng.random() < 0.8:
+            attrs += ' tts:origin="%s%% %s%%"' % (rng.choice([0, 10, 12.5, 25]), rng.choice([5, 10, 50, 80]))
+        if rng.random() < 0.6:
+            attrs += ' tts:extent="%s%% %s%%"' % (rng.choice([30, 50, 80]), rng.choice([10, 15, 40]))
+        if rng.random() < 0.4:
+            attrs += ' tts:padding="%s"' % ' '.join('%d%%' % rng.choice([0, 1, 2, 5]) for _ in range(rng.randrange(1, 5)))
+        if rng.random() < 0.5:
+            attrs += ' tts:displayAlign="%s"' % rng.choice(['before', 'center', 'after'])
+        if rng.random() < 0.5:
+            attrs += ' tts:textAlign="%s"' % rng.choice(['left', 'center', 'right', 'start', 'end'])
+        if rng.random() < 0.3:
+            attrs += ' style="%s"' % rng.choice(ids)
+        doc += '  <region xml:id="%s"%s/>\n' % (r, attrs)
+    doc += ' </layout>\n</head>\n<body>\n'
+    nlang = rng.choice([1, 1, 2])
+    for li, lang in enumerate(rng.sample(['en', 'fr', 'de', 'en&x'], nlang)):
+        divattr = ' region="%s"' % rng.choice(regs) if rng.random() < 0.4 else ''
+        doc += ' <div xml:lang=%s%s>\n' % (quoteattr(lang), divattr)
+        t = 0
+        for k in range(rng.randrange(1, 5)):
+            pattr = ''
+            if rng.random() < 0.6:
+                pattr += ' region="%s"' % rng.choice(regs)
+            if rng.random() < 0.5:
+                pattr += ' style="%s"' % rng.choice(ids)
+            if rng.random() < 0.2:
+                pattr += ' tts:textAlign="%s"' % rng.choice(['left', 'right', 'center'])
+            body = ''
+            for j in range(rng.randrange(1, 4)):
+                if j:
+                    body += '<br/>'
+                w = inline.esc(f'{tag}.{li}.{k}.{j} ' + inline.T.word(rng, p_meta=0.3), 'dfxp', rng).replace(']]>', ']]&gt;')
+                r = rng.random()
+                if r < 0.3:
+                    sattr = ' tts:fontFamily=%s' % quoteattr(rng.choice(fams))
+                    if rng.random() < 0.5:
+                        sattr += ' region="%s"' % rng.choice(regs)
+                    if rng.random() < 0.3:
+                        sattr += ' tts:textAlign="%s"' % rng.choice(['left', 'right', 'center'])
+                    if rng.random() < 0.4:
+                        sattr += ' tts:fontStyle="italic"'
+                    body += '<span%s>%s</span>' % (sattr, w)
+                elif r < 0.4:
+                    body += '<span style="%s">%s</span>' % (rng.choice(ids), w)
+                else:
+                    body += w
+            doc += '  <p begin="%dms" end="%dms"%s>%s</p>\n' % (t, t + 900, pattr, body)
+            t += 1000
+        doc += ' </div>\n'
+    doc += '</body>\n</tt>\n'
+    return {'format': 'dfxp', 'doc': doc, 'reader_kwargs': {}, 'read_kwargs': {}}
+
+
+def gen_sami_styled(rng, tag):
+    """A SAMI document whose stylesheet has font families with quotes and commas, colours, margins in
+    several units, text-align, class names in mixed case, ID selectors, and inline style= / class= spans."""
+    css = 'P { font-family: %s; font-size: 12pt; color: %s; text-align: %s; margin-left: %s; margin-top: %s; }\n' % (
+        rng.choice(['Arial', '"Times New Roman", serif', 'sans-serif']), rng.choice(['white', '#ffeedd', 'red']),
+        rng.choice(['left', 'center', 'right']), rng.choice(['5%', '29pt', '10px', '1em']),
+        rng.choice(['2%', '12pt', '0']))
+    classes = rng.sample(SAMI_LANGS, rng.choice([1, 2]))
+    for cls, lang in classes:
+        css += '.%s { Name: %s; lang: %s; SAMI_Type: CC; %s }\n' % (
+            cls, lang, lang, rng.choice(['', 'margin-right: 3%;', 'text-align: right;']))
+    css += '#Small { font-size: 8pt; color: #00ff00; }\n.hl { font-style: italic; font-family: "A, B"; }\n'
+    doc = '<SAMI>\n<HEAD>\n<STYLE TYPE="text/css">\n<!--\n%s-->\n</STYLE>\n</HEAD>\n<BODY>\n' % css
+    t = 1000
+    for k in range(rng.randrange(1, 6)):
+        doc += '<SYNC Start=%d>' % t
+        for ci, (cls, lang) in enumerate(classes):
+            w = inline.esc(f'{tag}.{ci}.{k} ' + inline.T.word(rng, p_meta=0.3), 'sami', rng)
+            r = rng.random()
+            if r < 0.3:
+                w = '<SPAN Style="%s">%s</SPAN>' % (rng.choice(['font-style:italic;', 'color:#ff0000; font-weight:bold;',
+                                                                  'text-align:right;', 'font-family:A&amp;B;',
+                                                                  'text-decoration:underline;']), w)
+            elif r < 0.45:
+                w = '<SPAN class="hl">%s</SPAN>' % w
+            elif r < 0.55:
+                w = '<SPAN ID="Small">%s</SPAN>' % w
+            pextra = rng.choice(['', '', ' Style="text-align:left;"', ' ID=Small'])
+            doc += '<P Class=%s%s>%s' % (cls, pextra, w)
+        doc += '\n'
+        t += rng.choice([1000, 2500])
+    doc += '</BODY>\n</SAMI>\n'
+    return {'format': 'sami', 'doc': doc, 'reader_kwargs': {}, 'read_kwargs': {}}
